@@ -624,9 +624,23 @@ class Execution:
                         self.violations.append(("I3-later-request-rebuilt", f"later request {p.spec.name} rebuilt instead of reusing the cached module"))
                 if p.outcome and p.outcome[0] == "raise" and p.outcome[1] != "TimeoutError":
                     pass
-        else:
-            # after a *failure* (not a kill) later sequential requests must build afresh and succeed
-            pass
+        if not self.used_kill:
+            # without kills, a request that never overlaps with any other one (strictly sequential) must return
+            # (after a *failure* the next request builds afresh and succeeds) unless it was itself made to fail
+            def closure(p):
+                out, todo = set(), list(p.spec.after)
+                while todo:
+                    a = todo.pop()
+                    if a not in out:
+                        out.add(a)
+                        todo += list(self.by_name[a].spec.after)
+                return out
+            cl = {p.spec.name: closure(p) for p in self.procs}
+            for p in self.procs:
+                solitary = all(q is p or q.spec.name in cl[p.spec.name] or p.spec.name in cl[q.spec.name] for q in self.procs)
+                if solitary and not p.injected and p.outcome and p.outcome[0] != "return":
+                    self.violations.append(("T2-sequential-request-failed", f"{p.spec.name} ran alone after earlier requests ended, no process was killed, "
+                                            f"yet it ended with {p.outcome[:2]} instead of returning a complete module"))
 
     def summary(self):
         return {
